@@ -4,7 +4,7 @@ use crate::cfg::{parser_with, Config, Policy};
 use crate::ctx::Ctx;
 use crate::exec::{render, Out};
 use crate::gen::ast::{to_source, Node, Style};
-use crate::refm::{interpret, Partial, Res};
+use crate::refm::{interpret_all, Partial, Res};
 use crate::rng::{hash_str, Rng};
 use crate::val::{dump_view, RVal};
 use liquid::ObjectView;
@@ -62,7 +62,7 @@ pub fn run_case(ctx: &mut Ctx, c: &Case<'_>, nontrivial: bool) -> Verdict {
             "partials": psrc.iter().map(|(n, t)| json!([n, t])).collect::<Vec<_>>(), "data": c.data.to_json(), "family": c.family})
     };
     ctx.set_progress(&main_src);
-    let model = interpret(c.main, c.data, &pmodel);
+    let models = interpret_all(c.main, c.data, &pmodel);
     let parser = match parser_with(Config::Stdlib, Policy::Eager, &psrc) {
         Ok(p) => p,
         Err(e) => {
@@ -113,6 +113,11 @@ pub fn run_case(ctx: &mut Ctx, c: &Case<'_>, nontrivial: bool) -> Verdict {
             return Verdict::Violation;
         }
     };
+    // when several verdicts are acceptable, judge against the one the real outcome matches (or the first)
+    let model = models.iter().find(|m| **m == got).cloned().unwrap_or_else(|| models[0].clone());
+    if models.len() > 1 {
+        ctx.count("reference:two-acceptable-verdicts(undefined argument)");
+    }
     match (&model, &got) {
         (Res::Unspec(why), _) => {
             ctx.record(h, false);
